@@ -354,7 +354,7 @@ Proof.
 Qed.
 
 (* every other item changes one contender record and at most the heartbeat file *)
-Definition item_c (it : item) : nat := match it with ICall c _ | IStep c _ _ | IKill c => c end.
+Definition item_c (it : item) : nat := match it with ICall c _ | IStep c _ _ | IKill c | IDeadline c => c end.
 
 Lemma exec_other_inv s it s' ob : exec s it = Some (s', ob) ->
   (forall c st, it <> IStep c None st) ->
@@ -367,12 +367,13 @@ Lemma exec_other_inv s it s' ob : exec s it = Some (s', ob) ->
           alive x2 = true /\ eng x2 = None /\ holds x2 = false /\ cur x2 = Some (Unlock, prog_of Unlock (ovr x)) /\
           gh x2 = {| mk := false; win := true |})
     \/ (it = IKill (item_c it) /\ cur x = None /\ alive x2 = false /\ eng x2 = eng x /\ holds x2 = holds x /\ cur x2 = None /\ gh x2 = gh x)
-    \/ (alive x2 = alive x /\ eng x2 = eng x /\ holds x2 = holds x /\ cur x2 = cur x /\ gh x2 = gh x) ).
+    \/ (alive x2 = alive x /\ eng x2 = eng x /\ holds x2 = holds x /\ gh x2 = gh x /\
+        (cur x2 = cur x \/ exists p, cur x = Some (LockWT, p) /\ cur x2 = Some (LockWTX, p))) ).
 Proof.
   assert (forall f, same_dir f f) as Hsd by (intros [d|]; simpl; auto).
   Ltac pre5 Hsd := eexists; eexists; (split; [eassumption || reflexivity|]); (split; [reflexivity|]); (split; [reflexivity|]);
         (split; [simpl; auto|]); (split; [reflexivity|]).
-  destruct it as [c a|c [k|] st|c]; simpl; intros H Hnot.
+  destruct it as [c a|c [k|] st|c|c]; simpl; intros H Hnot.
   - destruct (nth_error (cs s) c) as [x|] eqn:Hx; [|discriminate].
     destruct (cur x) eqn:Hcur; [discriminate|]. destruct (alive x) eqn:Hal; [|discriminate]. simpl in H.
     destruct (is_acquire a) eqn:Hacq.
@@ -386,14 +387,18 @@ Proof.
     destruct (nth_error (hbs x) k) as [h|] eqn:Hh; [|discriminate].
     destruct (pc h); [| |discriminate].
     + destruct (fs s) as [d|] eqn:Hfs; simpl in H; inversion H; subst; clear H; simpl;
-      pre5 Hsd; right; right; right; simpl; auto.
+      pre5 Hsd; right; right; right; simpl; repeat split; auto.
     + destruct (fs s) as [d|] eqn:Hfs; simpl in H; [destruct (hbf d)|]; inversion H; subst; clear H; simpl;
-      pre5 Hsd; right; right; right; simpl; auto.
+      pre5 Hsd; right; right; right; simpl; repeat split; auto.
   - exfalso. eapply Hnot; reflexivity.
   - destruct (nth_error (cs s) c) as [x|] eqn:Hx; [|discriminate].
     destruct (cur x) eqn:Hcur; [discriminate|].
     destruct (alive x && holds x) eqn:E; [|discriminate]. inversion H; subst; clear H. simpl. pre5 Hsd.
     right; right; left. simpl. repeat split; auto.
+  - destruct (nth_error (cs s) c) as [x|] eqn:Hx; [|discriminate].
+    destruct (cur x) as [[a p]|] eqn:Hcur; [|discriminate]. destruct a; try discriminate.
+    inversion H; subst; clear H. simpl. pre5 Hsd.
+    right; right; right. simpl. repeat split; auto. right. exists p. auto.
 Qed.
 
 (* ---------- invariants of EVERY run (no restriction on the schedule) ---------- *)
@@ -486,19 +491,22 @@ Proof.
     destruct Hcase as [(a & _ & _ & _ & _ & _ & _ & _ & Hh & _)|[(_ & _ & _ & _ & _ & _ & Hh & _)|[(_ & _ & _ & Hee & Hh & _)|(_ & Hee & Hh & _)]]];
       try congruence; rewrite Hee; apply (Hhe c x Hx); congruence.
   - intros c' x' a' p' Hx' Hcur'. rewrite Hcs in Hx'. apply nth_set_nth in Hx' as [[<- ->]|[Hne Hx']]; [|eauto].
-    destruct Hcase as [(a & _ & Hacq & _ & _ & _ & _ & _ & _ & Hc & Hg)|[(_ & _ & _ & _ & _ & _ & _ & Hc & Hg)|[(_ & _ & _ & _ & _ & Hc & _)|(_ & Hee & _ & Hc & Hg)]]].
+    destruct Hcase as [(a & _ & Hacq & _ & _ & _ & _ & _ & _ & Hc & Hg)|[(_ & _ & _ & _ & _ & _ & _ & Hc & Hg)|[(_ & _ & _ & _ & _ & Hc & _)|(_ & Hee & _ & Hg & Hc)]]].
     + rewrite Hc in Hcur'. inversion Hcur'; subst. rewrite Hg. split; [apply safe_prog_of_acquire; exact Hacq|simpl; discriminate].
     + rewrite Hc in Hcur'. inversion Hcur'; subst. rewrite Hg. split; [apply safe_prog_of_unlock; reflexivity|simpl; discriminate].
     + congruence.
-    + rewrite Hc in Hcur'. rewrite Hg, Hee. apply (Hps c x a' p' Hx Hcur').
+    + rewrite Hg, Hee. destruct Hc as [Hc|(p & Hc & Hc2)].
+      * rewrite Hc in Hcur'. apply (Hps c x a' p' Hx Hcur').
+      * rewrite Hc2 in Hcur'. inversion Hcur'; subst. exact (Hps c x LockWT p' Hx Hc).
 Qed.
 
 Lemma Inv_exec s it s' ob : Inv s -> exec s it = Some (s', ob) -> Inv s'.
 Proof.
-  intros HI He. destruct it as [c a|c [k|] st|c].
+  intros HI He. destruct it as [c a|c [k|] st|c|c].
   - eapply Inv_other; eauto. discriminate.
   - eapply Inv_other; eauto. discriminate.
   - eapply Inv_mstep; eauto. eapply exec_main_inv; eauto.
+  - eapply Inv_other; eauto. discriminate.
   - eapply Inv_other; eauto. discriminate.
 Qed.
 
